@@ -273,7 +273,8 @@ Definition step_op (w : world) (o : op) : world * option obs :=
   | OHooks m =>
       let r1 := if N.odd m then add_helpers r [(HELPER_MISSING, HHelperMissing)] else r in
       let r2 := if N.odd (m / 2) then add_helpers r1 [(BLOCK_HELPER_MISSING, HBlockHelperMissing)] else r1 in
-      (set_cur w r2, None)
+      let r3 := if N.odd (m / 4) then add_helpers r2 [(HELPER_MISSING, HMacro M_0)] else r2 in
+      (set_cur w r3, None)
   | OMacros =>
       (set_cur w (add_helpers r (map (fun m => (ms_name (macro_sig m), HMacro m)) all_macros)), None)
   | OFt t => ({| w_a := w_a w; w_b := w_b w; w_sel := w_sel w; w_files := w_files w; w_ft := t |}, None)
